@@ -423,6 +423,24 @@ fn basic_code_defined(t: &str) -> bool {
 
 fn parsed_case(r: &mut Rng) -> RtCase {
     let style = |r: &mut Rng| if r.chance(1, 4) { 0 } else { r.next() | 1 };
+    // a quarter of the parsed cases start from a document that is NOT conforming (a member of the wrong type, duplicated,
+    // missing, ..): whatever the library ACCEPTS must survive the round trip — including what it should have refused
+    if r.chance(1, 4) {
+        return match r.below(3) {
+            0 => {
+                let c = tok::malformed(r);
+                RtCase { family: 0, variant: c.variant, doc: c.doc, style: style(r), built: None, canonical: true, class: "parsed-nonconforming".into() }
+            }
+            1 => {
+                let c = intro::malformed(r);
+                RtCase { family: 1, variant: c.variant, doc: c.doc, style: style(r), built: None, canonical: true, class: "parsed-nonconforming".into() }
+            }
+            _ => {
+                let c = devauth::malformed(r);
+                RtCase { family: 2, variant: c.variant, doc: c.doc, style: style(r), built: None, canonical: true, class: "parsed-nonconforming".into() }
+            }
+        };
+    }
     match r.below(4) {
         0 => {
             let c = tok::base_case(r);
